@@ -182,8 +182,16 @@ def gen_open(rng, cfg, variant="valid", hold=None):
         hold = 2
     elif variant == "hold0":
         hold = 0
+    field = None
+    if variant in ("valid", "hold0") and rng.chance(0.08):
+        # the 4-octet value of capability 65 is the peer's AS even when the 2-octet field says otherwise
+        caps = [c for c in caps if c[0] != 65] + [rp.cap_as4(asn)]
+        field = rng.pick([a for a in (1, 64512, 65535, 23456, 100) if a != asn])
+    elif variant == "badas" and asn != cfg["remote_as"] and cfg["remote_as"] <= 65535 and rng.chance(0.3):
+        caps = [c for c in caps if c[0] != 65] + [rp.cap_as4(asn)]
+        field = cfg["remote_as"]
     return rp.encode_open(asn, hold, "2.2.2.%d" % rng.randrange(1, 255), caps, version=version,
-                          one_param_each=rng.chance(0.5))
+                          one_param_each=rng.chance(0.5), my_as_field=field)
 
 
 PREFIX_POOL = ["10.1.0.0/16", "10.2.3.0/24", "192.168.0.0/17", "172.16.5.4/32", "0.0.0.0/0", "100.64.0.0/10"]
@@ -231,6 +239,13 @@ def gen_bad_marker(rng):
 
 
 def gen_bad_len(rng):
+    if rng.chance(0.2):
+        # type-specific rules of RFC 4271 6.1: KEEPALIVE longer than 19, OPEN shorter than 29
+        if rng.chance(0.5):
+            n = rng.pick([1, 2, 4, 30])
+            return rp.frame(rp.KEEPALIVE, bytes(rng.randrange(256) for _ in range(n)))
+        n = rng.randrange(0, 10)
+        return rp.frame(rp.OPEN, bytes([4, 0, 1, 0, 90, 1, 1, 1, 1, 0])[:n])
     length = rng.pick([0, 1, 18, 4097, 65535, rng.randrange(0, 19), rng.randrange(4097, 65536)])
     mtype = rng.pick([1, 2, 3, 4, 5])
     body = bytes(rng.randrange(256) for _ in range(rng.pick([0, 0, 4, 23])))
